@@ -71,6 +71,13 @@ def main():
         harness_error(f'bootstrap failed: {type(e).__name__}: {e}')
 
     options = dict(getattr(prop, 'options', {}))
+    # warm the read-only caches in the parent: every run executes in a forked child that inherits them
+    from depsim import gen, grammars
+    for variant in ('en', 'en_rebank', 'ja'):
+        gen.seen_index(variant)
+        grammars.seen_rule_set(variant)
+        grammars.unary_table(variant)
+        grammars.shipped('targets', variant)
     if hasattr(prop, 'prepare'):
         prop.prepare()
 
